@@ -67,6 +67,8 @@ def corr (prop unitsPath runPath : String) : IO UInt32 := do
           st := { st with skipped := st.skipped + 1 }
         else
           perUnit := perUnit.insert name (perUnit.getD name 0 + 1)
+          -- std::fmin/std::fmax may return either zero for (+0, −0) (C99 7.12.12); the symbolic overload picks one of them
+          let zeroLoose := ["fmin", "fmax", "fclamp"].any fun p => (name.splitOn p).length > 1
           if ty == "i32" || ty == "u32" then
             -- integer units: exact comparison of machine integers
             let mut j := 0
@@ -91,7 +93,7 @@ def corr (prop unitsPath runPath : String) : IO UInt32 := do
               let m := t.eval f32Ops env
               let g := Float32.ofBits (outs.getD j 0).toUInt32
               st := { st with comps := st.comps + 1 }
-              if !(bitsEq32 m g) then
+              if !(bitsEq32 m g || (zeroLoose && m == 0 && g == 0)) then
                 st := { st with mismatches := st.mismatches + 1 }
                 if st.msgs.size < 20 then
                   st := { st with msgs := st.msgs.push s!"MISMATCH {name} f32 comp {j} in {ins} model {m.toBits} glm {g.toBits}" }
@@ -109,7 +111,7 @@ def corr (prop unitsPath runPath : String) : IO UInt32 := do
               let m := t.eval f64Ops env
               let g := Float.ofBits (outs.getD j 0).toUInt64
               st := { st with comps := st.comps + 1 }
-              if !(bitsEq64 m g) then
+              if !(bitsEq64 m g || (zeroLoose && m == 0 && g == 0)) then
                 st := { st with mismatches := st.mismatches + 1 }
                 if st.msgs.size < 20 then
                   st := { st with msgs := st.msgs.push s!"MISMATCH {name} f64 comp {j} in {ins} model {m.toBits} glm {g.toBits}" }
